@@ -40,6 +40,7 @@ struct Task {
   const char* what; const void* obj; int64_t deadline; bool timed_out;
   uint32_t cnt[K_NKINDS];
   int nopreempt;
+  int host_depth;           // per-task value of g_host_depth_export (a task may block inside a stub that holds a host guard)
   const char* name;
   char note[64];
   std::vector<int>* joiners;
@@ -91,8 +92,22 @@ static uint64_t drnd() { return xo(g.s); }
 static inline void hmix(uint64_t x) { g.hash = (g.hash ^ x) * 0x100000001b3ULL; g.hash ^= g.hash >> 29; }
 static inline uint64_t shash(const char* s) { uint64_t h = 1469598103934665603ULL; while (*s) { h = (h ^ (unsigned char)*s++) * 0x100000001b3ULL; } return h; }
 static void logText(const char* kind, int64_t a, int64_t b, int64_t c);
+// allocation-free trace of everything that enters the hash (diagnosis of replay divergences)
+struct TraceEv { const char* kind; int cur; uint64_t step; int64_t a, b, c; };
+static TraceEv traceBuf[2][1 << 15]; static size_t traceLen[2]; static int traceCur = 0;
+void traceSwap() { traceCur ^= 1; traceLen[traceCur] = 0; }
+void traceDumpDiff() {
+  size_t n = traceLen[0] < traceLen[1] ? traceLen[0] : traceLen[1];
+  for (size_t i = 0; i < n; ++i) { TraceEv& x = traceBuf[traceCur ^ 1][i]; TraceEv& y = traceBuf[traceCur][i];
+    if (strcmp(x.kind, y.kind) || x.cur != y.cur || x.a != y.a || x.b != y.b || x.c != y.c || x.step != y.step) {
+      for (size_t k = i > 6 ? i - 6 : 0; k <= i; ++k) { TraceEv& p = traceBuf[traceCur ^ 1][k]; TraceEv& q = traceBuf[traceCur][k]; printf("  #%zu  first: %llu t%d %s %lld %lld %lld   |  second: %llu t%d %s %lld %lld %lld\n", k, (unsigned long long)p.step, p.cur, p.kind, (long long)p.a, (long long)p.b, (long long)p.c, (unsigned long long)q.step, q.cur, q.kind, (long long)q.a, (long long)q.b, (long long)q.c); }
+      return; } }
+  printf("  traces equal for %zu events (lengths %zu / %zu)\n", n, traceLen[traceCur ^ 1], traceLen[traceCur]);
+}
+void traceNote(const char* kind, int64_t a, int64_t b, int64_t c) { if (g.in_run && traceLen[traceCur] < (1 << 15)) { TraceEv& e = traceBuf[traceCur][traceLen[traceCur]++]; e.kind = kind; e.cur = g.cur; e.step = g.steps; e.a = a; e.b = b; e.c = c; } }
 void logEvent(const char* kind, int64_t a, int64_t b, int64_t c) {
   if (!g.in_run) return;
+  if (traceLen[traceCur] < (1 << 15)) { TraceEv& e = traceBuf[traceCur][traceLen[traceCur]++]; e.kind = kind; e.cur = g.cur; e.step = g.steps; e.a = a; e.b = b; e.c = c; }
   hmix(shash(kind)); hmix((uint64_t)g.cur); hmix((uint64_t)a); hmix((uint64_t)b); hmix((uint64_t)c);
   logText(kind, a, b, c);
 }
@@ -131,6 +146,7 @@ const void* blockedObj(int id) { return g.t[id].obj; }
 void setTaskNote(const char* n) { if (g.cur) { strncpy(g.t[g.cur].note, n, 63); g.t[g.cur].note[63] = 0; } }
 const char* taskNote(int id) { return g.t[id].note; }
 bool failed() { return g.res && g.res->violated; }
+uint64_t currentSeed() { return g.spec ? g.spec->seed : 0; }
 uint32_t decisionCount(int task, int kind) { return (task >= 0 && task <= MAXT && kind >= 0 && kind < K_NKINDS) ? g.t[task].cnt[kind] : 0; }
 
 void noPreemptEnter() { if (g.cur) g.t[g.cur].nopreempt++; }
@@ -181,6 +197,7 @@ int choose(int kind, int n) {
     g.res->decisions.push_back(Decision{g.cur, kind, (int)nth, v});
     g_host_depth_export--;
     hmix(0xC0 + kind); hmix(v);
+    if (traceLen[traceCur] < (1 << 15)) { TraceEv& e = traceBuf[traceCur][traceLen[traceCur]++]; e.kind = "choose"; e.cur = g.cur; e.step = g.steps; e.a = kind; e.b = v; e.c = nth; }
     if (kind != K_BLOCKNEXT) g.res->nontrivial = true;
   }
   return v;
@@ -246,8 +263,10 @@ static void switchTo(int next) {
   int prev = g.cur;
   if (prev == next) return;
   if (prev) g.t[prev].saved_errno = errno;
+  g.t[prev].host_depth = g_host_depth_export; g_host_depth_export = g.t[next].host_depth;
   g.switches++;
   hmix(0x5157); hmix(prev); hmix(next); hmix(g.steps);
+  if (traceLen[traceCur] < (1 << 15)) { TraceEv& e = traceBuf[traceCur][traceLen[traceCur]++]; e.kind = "switch"; e.cur = prev; e.step = g.steps; e.a = next; e.b = 0; e.c = 0; }
   logText("switch", prev, next, prev ? (int64_t)g.t[prev].yields : 0);
   g.cur = next;
   void** save = prev ? &g.t[prev].sp : &g.host_sp;
@@ -424,6 +443,7 @@ Result run(const RunSpec& spec, const Config& cfg, const Hooks& hooks) {
   }
   g_host_depth_export = 0;
   for (auto fn : resetHooks()) fn();
+  traceSwap();
   g.in_run = true; g.cur = 0;
   int mainId = spawn(hooks.main_fn, hooks.main_arg, "main");
   switchTo(mainId);
